@@ -43,6 +43,7 @@ HandQ(u)  == Fam(2, GraphsOn(2), St3, {-1}, {1, 2}, {FALSE}, ListsUpTo(2), AllOe
 MShape4(u) == Fam(4, GraphsOn(4), St2, {-1, 1, 2}, {2}, {FALSE}, HL_Miss, {"same"}, {TRUE})
 MConc3(u)  == Fam(3, GraphsOn(3), St2, -1..2, {3}, {FALSE}, HL_Shape, {"same"}, {TRUE})
 MHand(u)   == Fam(2, GraphsOn(2), St3, {-1}, {1, 2}, {FALSE}, ListsUpTo(4), AllOers, BOOLEAN)
+MHaz(u)    == Fam(3, GraphsOn(3), St2, {-1}, {2}, {FALSE}, {<<"OnError">>, <<"OnMissing", "OnError">>}, {"same"}, {FALSE})
 MDev(u)    == Fam(3, GraphsOn(3), St2, {-1}, {2}, {FALSE}, HL_Shape, {"same"}, {TRUE})
 
 \* ---- G (sequential walks only) ---------------------------------------------------------------
@@ -56,6 +57,7 @@ MCSel == Norm(CASE Family = "MQuick"  -> ShapeQ(0) \cup HandQ(0)
                 [] Family = "MConc3"  -> MConc3(0)
                 [] Family = "MHand"   -> MHand(0)
                 [] Family = "MDev"    -> MDev(0)
+                [] Family = "MHaz"    -> MHaz(0)
                 [] Family = "GQuick"    -> GShapeQ(0) \cup GHandQ(0)
                 [] Family = "GThorough" -> GShapeT(0) \cup GHandT(0)
                 [] OTHER -> {})
